@@ -6,7 +6,7 @@ LEVEL = 'exploration'
 RULE = ('(i) bounded-exhaustive: every mutation skeleton of length <= 3 (thorough: 4) over {add via observer A, add via packer P, '
         'pack_all_loose(clean_loose_per_pack F/T), clean_storage} x every position and kind (6) of one earlier query on A that may pin '
         'its index snapshot; all five views (has_objects, get_object_content, get_objects_content, get_objects_meta, list_all_objects) '
-        'are checked on A at the end and on a second long-open observer B after every step; (ii) seeded random histories over 3-4 handles, '
+        'are checked on A at the end and on a second long-open observer B after every step (bulk views both with skip_if_missing True and False); the shorter skeletons are repeated with a 40-byte pack target (several packs) and with the EMPTY object as the first new content; (ii) seeded random histories over 3-4 handles, '
         '8-30 steps incl. compressed packing and direct-to-pack writes by P, queries at random positions. Distinct = (skeleton, pin '
         'position, pin kind) / step sequence; every history is non-trivial (>= 1 add and >= 5 view checks).')
 ASSUMPTIONS = ['operations are issued one at a time (sequential histories)', 'only the five view kinds named by the property are judged',
@@ -15,9 +15,13 @@ TECHNIQUE = 'runtime monitoring: bounded-exhaustive + random sequential multi-ha
 
 
 def run(ctx):
-    for c in ('histories', 'view:list_all_objects', 'view:has_objects', 'step:clean', 'step:packT'):
+    for c in ('histories', 'view:list_all_objects', 'view:has_objects', 'step:clean', 'step:packT', 'histories-adding-the-empty-object',
+              'histories-with-several-packs'):
         ctx.require(c)
     hists = multihandle.enumerate_histories(ctx.pick(3, 4))
+    # the same skeletons with several small packs (objects land in different packs) and with the EMPTY object as the first new content
+    extra = multihandle.enumerate_histories(ctx.pick(2, 3))
+    hists = hists + [{**h, 'pack_target': 40} for h in extra] + [{**h, 'empty_first': True} for h in extra]
     chunk = 120
     cases = [{'histories': hists[i:i + chunk]} for i in range(0, len(hists), chunk)]
     ctx.map(multihandle.run_enumerated, cases)
@@ -32,4 +36,4 @@ def replay(ctx, rep):
     if 'history' in r:
         ctx.map(multihandle.run_enumerated, [{'histories': [r['history']]}])
     else:
-        ctx.map(multihandle.run_random, [{'seed': 0, 'n': 1, 'explicit': r['explicit']}])
+        ctx.map(multihandle.run_random, [{'seed': 0, 'n': 1, 'explicit': r['explicit'], 'conf': r.get('conf')}])
